@@ -73,3 +73,79 @@ def formatInt (v : Int) : List Char :=
   if v < 0 then '-' :: Nat.toDigits 10 v.natAbs else Nat.toDigits 10 v.natAbs
 
 end QV.Model.Literal
+
+namespace QV.Model.Literal
+
+/-- `char::from_u32` -/
+def charFromU32 (n : Nat) : Option Char :=
+  if n < 0xD800 ∨ (0xE000 ≤ n ∧ n < 0x110000) then some (Char.ofNat n) else none
+
+def u32Max : Nat := 4294967295
+
+/-- the digit loop of `u32::from_str_radix` -/
+def digitsLoop32 (radix : Nat) : List Char → Nat → Option Nat
+  | [], acc => some acc
+  | c :: cs, acc =>
+    match toDigit radix c with
+    | none => none
+    | some d => if acc * radix + d ≤ u32Max then digitsLoop32 radix cs (acc * radix + d) else none
+
+/-- `u32::from_str_radix` -/
+def fromStrRadix32 (radix : Nat) (s : List Char) : Option Nat :=
+  match s with
+  | [] => none
+  | ['+'] => none
+  | ['-'] => none
+  | '+' :: rest => digitsLoop32 radix rest 0
+  | _ => digitsLoop32 radix s 0
+
+/-- `char_from_str_radix` -/
+def charFromStrRadix (s : List Char) (radix : Nat) : Option Char :=
+  match fromStrRadix32 radix s with
+  | some n => charFromU32 n
+  | none => none
+
+/-- `unescape_char`: the text of one `escape_sequence` node (backslash included); lengths are in bytes (`str::len`) -/
+def unescapeChar (escaped : List Char) : Option Char :=
+  match escaped with
+  | '\\' :: tail =>
+    let len := (tail.map Char.utf8Size).sum
+    if len = 1 then
+      (match tail with
+       | ['0'] => some (Char.ofNat 0)
+       | ['\''] => some '\''
+       | ['"'] => some '"'
+       | ['\\'] => some '\\'
+       | ['n'] => some '\n'
+       | ['r'] => some '\r'
+       | ['v'] => some (Char.ofNat 11)
+       | ['t'] => some '\t'
+       | ['b'] => some (Char.ofNat 8)
+       | ['f'] => some (Char.ofNat 12)
+       | _ => none)
+    else
+      (match tail with
+       | 'u' :: '{' :: rest =>
+         if rest.getLast? = some '}' then charFromStrRadix rest.dropLast 16
+         else if len = 5 then charFromStrRadix ('{' :: rest) 16 else none
+       | 'u' :: rest => if len = 5 then charFromStrRadix rest 16 else none
+       | 'x' :: rest => if len = 3 then charFromStrRadix rest 16 else none
+       | _ => none)
+  | _ => none
+
+/-- a string literal as the CST presents it: fragments and escape sequences -/
+inductive Segment where
+  | fragment (s : List Char)
+  | escape (s : List Char)
+deriving DecidableEq, Repr
+
+/-- `parse_string` -/
+def parseString : List Segment → Option (List Char)
+  | [] => some []
+  | .fragment s :: rest => (parseString rest).map (s ++ ·)
+  | .escape e :: rest =>
+    match unescapeChar e with
+    | some c => (parseString rest).map (c :: ·)
+    | none => none
+
+end QV.Model.Literal
